@@ -22,7 +22,7 @@ LEVEL = ("(System cases also with build(mult=2, fem_full=True), Huang-Rhys facto
          "with 1-2 modes and aggregates of 1-3 of them: number of vibronic states per electronic state, and every "
          "Hamiltonian, dipole and FCf element against (electronic Frenkel element) x (product over all modes of the "
          "closed-form overlap of the shift difference), diagonals against electronic + sum n*omega; HR/shift relation."
-         " Later additions: couplings asked for state by state, also while other units are current.")
+         " Later additions: couplings asked for state by state, also while other units are current. Round five: single modes with another excited-state frequency and with more than 20 levels; complex displacements; deterministic grid of deep vibronic systems.")
 NOTE = ("Full vibrational state space only (vibgen_approx=None); two-level molecules; <= 3 molecules, <= 2 modes each, "
         "<= 4 levels per electronic state, <= 48 (quick) / 110 (thorough) vibronic states; shifts only in excited states.")
 RULE = ("kind=shift: d = k/100, |k| <= 300. kind=system: 1..3 molecules x 0..2 modes (frequency 100..1500 cm^-1, "
